@@ -370,7 +370,7 @@ Lemma local_emitter_options_ignored_lemma :
     map rp_files (reports (run_loop tmp_of bk_of formatter (session_of_cfg scfg) [MkIn true false (LOk c) i])) =
       [[(i, [Write i [98; 10]], OutNothing)]] /\
     map rp_files (reports (run_loop tmp_of bk_of formatter (session_of_cfg c) [MkIn true false LNone i])) =
-      [[(i, [Write (i + 1) [98; 10]; Rename i (i + 2); Rename (i + 1) i], OutNothing)]].
+      [[(i, [Remove (i + 1); Write (i + 1) [98; 10]; Rename i (i + 2); Rename (i + 1) i], OutNothing)]].
 Proof.
   exists (fun p => p + 1), (fun p => p + 2), demo_formatter,
          (MkCfg 0 true MFiles false (MkBits false false)), (MkCfg 0 true MFiles true (MkBits false false)), 1.
